@@ -65,7 +65,7 @@ Failing(h, e, fl) ==
            frame |-> frame, views |-> (~R.j) \/ views, rect |-> (~R.j) \/ rect]
   IN {k \in DOMAIN checks : ~checks[k]}
 
-NoSeed(a) == [x \in (DOMAIN a) \ {"seed"} |-> a[x]]
+NoSeed(a) == [x \in (DOMAIN a) \ {"seed", "mk", "sup"} |-> a[x]]
 SeenAtoms(h, e, obs) ==
   LET pre == h[e.recv]  a == e.a  new == obs[Len(obs)] IN
   CASE e.op = "BuildBootstrap" -> [all |-> AtomsBootstrap(pre, Len(new.rows[1].s)), seen |-> SeenBootstrap(pre, new, Len(new.rows[1].s))]
